@@ -194,6 +194,21 @@ def fuzz_app():
         from poorwsgi.response import GeneratorResponse
         return partial_of(req, GeneratorResponse((b"%d" % i for i in range(10)), headers=dict(PRESET), content_length=10))
 
+    # a response object kept by the application and returned again (e.g. a module-level "cached" answer);
+    # FileObjResponse when the server offers wsgi.file_wrapper
+    shared = {"plain": Response(b"kept"), "file": None}
+
+    @app.route("/reused")
+    def reused(req):
+        return shared["plain"]
+
+    @app.route("/reusedf")
+    def reusedf(req):
+        from poorwsgi.response import FileObjResponse
+        if shared["file"] is None:
+            shared["file"] = FileObjResponse(io.BytesIO(b"0123456789"))
+        return shared["file"]
+
     @app.route("/auth")
     def auth(req):
         return str(sorted(req.authorization.items()))
@@ -220,7 +235,7 @@ def extra_oracles(rng, tier):
         env = {"SERVER_NAME": "srv", "SERVER_PORT": "80", "SERVER_PROTOCOL": rng.choice(["HTTP/1.1", "HTTP/1.0", "HTTP/0.9"]),
                "wsgi.url_scheme": "http", "wsgi.errors": io.StringIO()}
         env["REQUEST_METHOD"] = rng.choice(["GET", "HEAD", "POST", "PUT", "PATCH", "DELETE", "OPTIONS", "BREW", "get", "", "G<T"])
-        path = rng.choice(["/", "/echo", "/cookie", "/range", "/rangeh", "/rangef", "/rangeg", "/auth", "/host", "/u/a/1", "/u/\xc3\xa9/x", "/f", "/d/", "/d",
+        path = rng.choice(["/", "/echo", "/cookie", "/range", "/rangeh", "/rangef", "/rangeg", "/reused", "/reusedf", "/auth", "/host", "/u/a/1", "/u/\xc3\xa9/x", "/f", "/d/", "/d",
                            "", "no-slash", "/\xff\xfe", "/a\x00b", "//", "/../f", "/u/a/99999999999999999999", "/debug-info",
                            "/" + "a" * 5000, "/\xe2\x82", "/d/../f", "/%2e%2e/f", "/d/x.txt"])
         if rng.random() < 0.97:
@@ -248,6 +263,9 @@ def extra_oracles(rng, tier):
                           ("HTTP_TRANSFER_ENCODING", ["chunked"]), ("HTTP_X_REQUESTED_WITH", ["XMLHttpRequest"])):
             if rng.random() < (0.8 if key == "HTTP_RANGE" and path.startswith("/range") else 0.3):
                 env[key] = rng.choice(vals)
+        if rng.random() < 0.25:
+            # a server that offers the optional file wrapper (PEP 3333): file responses are handed to it
+            env["wsgi.file_wrapper"] = lambda f, bs=8192: iter(lambda: f.read(bs), b"")
         calls = []
         try:
             chunks = list(app(dict(env), lambda s, h: calls.append((s, h))))
@@ -264,6 +282,8 @@ def extra_oracles(rng, tier):
             shown = {k: (v if isinstance(v, str) else repr(v)[:60]) for k, v in env.items()
                      if k not in ("wsgi.errors",)}
             shown["wsgi.input"] = hx(body[:64])
+            if "wsgi.file_wrapper" in shown:
+                shown["wsgi.file_wrapper"] = "present"
             kind = type(outcome[1]).__name__ if outcome[0] == "escaped" else outcome[0]
             out.append(Violation("c01-environ:%s" % kind, shown, bad))
     return out, {"evaluations": seen, "distinct_nontrivial": seen, "environ_outcomes": stats}
